@@ -317,7 +317,7 @@ def index(args):
 
             if lineage:
                 # remove from our list of remaining ident -> lineage
-                record_remnants.remove(ident)
+                record_remnants.discard(ident)
 
                 # track ident as used
                 record_used_idents.add(ident)
